@@ -238,6 +238,28 @@ Section Step.
   Definition exec (s : st) (ops : list op) : st := fold_left (fun s o => fst (fst (step s o))) ops s.
 End Step.
 
+(* the pinned code before the fix: merge_chunks incremented the expected number with `+= 1`, which
+   overflows (panic with overflow checks) after a kept chunk numbered u32::MAX *)
+Module Legacy.
+  Fixpoint keep_run (expect : Z) (l : list chunk) : option (list chunk) :=
+    match l with
+    | [] => Some []
+    | c :: l' =>
+        if k_seq c =? expect then
+          if U32 <=? expect + 1 then None
+          else match keep_run (expect + 1) l' with Some r => Some (c :: r) | None => None end
+        else keep_run expect l'
+    end.
+  Definition merge (l : list chunk) : option (list chunk) :=
+    match l with
+    | [_] => Some l
+    | _ => match sort l with
+           | [] => Some []
+           | (c0 :: _) as s => keep_run (k_seq c0) s
+           end
+    end.
+End Legacy.
+
 (* ---- the decoder on the harness's payloads ------------------------------------------------ *)
 (* Chunker::decode: all chunks but the last must be intermediate and the last final
    (BadDecodingError); the bodies are concatenated; part 0 of a message starts with its node id,
